@@ -147,6 +147,17 @@ def directed(tuftool, replay):
                                  f'only one key signed (signatures by {[x[:8] for x in st2["signatures"]]})'})
             if len(st2.get('signatures', [])) != len(set(st2.get('signatures', []))):
                 problems.append({'class': 'duplicate-signature-entries', 'sequence': list(log), 'what': f'root.json lists the same key id twice under signatures: {[x[:8] for x in st2["signatures"]]}'})
+        # third scenario: a key that is already in the key table (listed for targets) is added to the root role of a signed file:
+        # the content changes (root's key ids), so the signatures must go
+        three = os.path.join(work, 'three.json')
+        t('init', three); t('add-key', three, '-k', A, '-r', 'root', '-r', 'snapshot', '-r', 'targets', '-r', 'timestamp'); t('add-key', three, '-k', B, '-r', 'targets')
+        for r in ROLES: t('set-threshold', three, r, '1')
+        t('sign', three, '-k', A)
+        before3 = replay('root_check', {'path': three})
+        rc3 = t('add-key', three, '-k', B, '-r', 'root')
+        st3 = replay('root_check', {'path': three})
+        if rc3 == 0 and st3.get('parses') and st3['roles'].get('root', {}).get('keyids') != before3['roles'].get('root', {}).get('keyids') and st3.get('signatures'):
+            problems.append({'class': 'stale-signatures', 'sequence': list(log), 'what': f'`add-key` of a key that is already in the key table to the root role changed the root key ids but left {len(st3["signatures"])} signature(s) in the file'})
         if problems: return problems
         if rc == 0 and not st.get('self_verifies'):
             return [{'class': 'sign-not-self-verifying', 'sequence': log, 'what': f'`sign -k <one of two root keys>` (no --ignore-threshold, no --cross-sign) exited 0 although the root needs 2 root signatures and carries only one by its own keys '
